@@ -173,7 +173,7 @@ def construct(B, G, n, h, a):
             after = [B.scalars(p) for net in st.networks for p in getattr(st, net).parameters()]
             same = all(np.array_equal(x, y) for x, y in zip(before, after))
             G.fact("%s.fit_without_bases_refused" % kind, same and made[0] == 0, "parameters unchanged %s, optimizer activity %d" % (same, made[0]))
-    G.twin("twin_weight_scale", entries(B, nn.PositiveWaveFunction(n, h, gpu=False).rbm_am.weights)[0], B.tensor(log[-1]).view(-1)[0] if False else entries(B, B.tensor(log[-1]))[0])
+    G.twin("twin_weight_scale", entries(B, nn.PositiveWaveFunction(n, h, gpu=False).rbm_am.weights)[0], 2 * entries(B, B.tensor(log[-1]))[0])
 
 
 def train_step(B, G, n, h, a, epochs=2):
@@ -202,7 +202,7 @@ def jobs(tier):
         J += [dict(name="construct-4-2-3", module="checks.c20", scenario="construct", kwargs=dict(n=4, h=2, a=3)),
               dict(name="construct-1-2-2", module="checks.c20", scenario="construct", kwargs=dict(n=1, h=2, a=2)),
               dict(name="train-112", module="checks.c20", scenario="train_step", kwargs=dict(n=1, h=1, a=2), opts=dict(env_range=0.6, var_ranges=[["lr", 0.05, 0.5]])),
-              dict(name="train-211-one-epoch", module="checks.c20", scenario="train_step", kwargs=dict(n=2, h=1, a=1, epochs=1), opts=dict(env_range=0.6, var_ranges=[["lr", 0.05, 0.5]]))]
+              dict(name="train-121-one-epoch", module="checks.c20", scenario="train_step", kwargs=dict(n=1, h=2, a=1, epochs=1), opts=dict(env_range=0.6, var_ranges=[["lr", 0.05, 0.5]]))]
     return J
 
 
